@@ -312,12 +312,26 @@ def _expected_temporal(src, case, delta_used):
     d_ms = Fraction(delta_used) * 1000
     must, opt = [], []
     k = 1
+    # Is the grid first + k*delta exact in double precision (whole / dyadic seconds)?  Then an instant that falls
+    # exactly on the last timestamp IS requested and is "not after the last" for every way of computing the grid in
+    # floats (repeated addition or multiplication), so it is required, not optional.
+    t_float = first / 1000.0
+    d_float = float(delta_used)
+    exact = Fraction(t_float) == Fraction(first, 1000) and Fraction(d_float) == Fraction(delta_used)
     while True:
         r = first + k * d_ms
+        if exact:
+            t_next = t_float + d_float
+            exact = Fraction(t_next) == Fraction(t_float) + Fraction(d_float) and \
+                Fraction(first / 1000.0 + k * d_float) == Fraction(t_next)
+            t_float = t_next
         drift = (4 + k) * ulp_ms
         eps = max(1e-3, drift)
         if r < last - eps:
             must.append((r, drift))
+        elif r == last and exact and Fraction(last / 1000.0) == Fraction(last, 1000):
+            must.append((r, drift))
+            M.CTX.count("numeric_step_lands_exactly_on_last")
         elif r <= last + eps:
             opt.append((r, drift))
         else:
